@@ -230,6 +230,8 @@ def _run(ctx):
         "c07 runs real child processes over the same harness",
         "reference instance = FSM.applyRobustMessage on a fresh IRCServer for log[1..applied], never snapshotted; comparison is on "
         "decoded Marshal output, probe commands, LastPostMessage, config revision, outputstream.Get",
+        "the state-changing probes (JOIN/PRIVMSG/TOPIC from every session) run once, when a schedule is over; during a schedule "
+        "per-session state is exercised by the follow-up commands of the logs themselves",
         "TLC, the Go toolchain and goleveldb are trusted",
     ]
 
